@@ -37,8 +37,13 @@ func VerifH_StreamParkedWrite() {
 	msg := vrt.BytesN("msg", 3)
 	var wErr, aErr error
 	var wDone, aDone, aBusy bool
+	rawW := vrt.Bool("writerUsesRawWrite")
 	go func() {
-		wErr = s.MsgSend(&msg, byteEnc{})
+		if rawW {
+			wErr = s.RawWrite(drpcwire.KindMessage, msg)
+		} else {
+			wErr = s.MsgSend(&msg, byteEnc{})
+		}
 		wDone = true
 	}()
 	go func() {
@@ -138,4 +143,59 @@ func VerifH_StreamParkedWrite() {
 		checkLog(tr.log, sid, r.out)
 	}
 	vrt.Cover("parked-end")
+}
+
+
+// VerifH_PacketsWhileTerminating: a terminating call (Close / SendError / SendCancel) is
+// parked in the transport writing its final packet: the stream is terminated but not yet
+// finished. Packets from the peer arriving in that window (any kind class) must be ignored:
+// no error returned to the manager, no signal changed, the parked call's result unchanged;
+// the stream becomes finished exactly when the write returns.
+func VerifH_PacketsWhileTerminating() {
+	sid := uint64(1)
+	gate := false
+	tr := &recTransport{gate: &gate}
+	s := NewWithOptions(context.Background(), sid, drpcwire.NewWriter(tr, 1), Options{})
+	tr.afterTerm = s
+	term := vrt.Choice("terminator", 3)
+	fails := vrt.Bool("writeFails")
+	var wErr error
+	wDone := false
+	go func() {
+		switch term {
+		case 0:
+			wErr = s.Close()
+		case 1:
+			wErr = s.SendError(&appErr{msg: "e", code: 5})
+		case 2:
+			_, wErr = s.SendCancel(context.Canceled)
+		}
+		wDone = true
+	}()
+	vrt.WaitFor(&tr.parked)
+	vrt.Quiesce()
+	vrt.Assert(s.IsTerminated() && !s.IsFinished() && !wDone, "terminated, not finished, while the final packet is in flight")
+	k := vrt.U8("kind")
+	vrt.Assume(k <= 9)
+	pkt := drpcwire.Packet{ID: drpcwire.ID{Stream: sid, Message: 1}, Kind: drpcwire.Kind(k), Control: vrt.Bool("control"), Data: []byte{0, 0, 0, 0, 0, 0, 0, 3, 'p'}}
+	var hErr error
+	hDone := false
+	go func() { hErr = s.HandlePacket(pkt); hDone = true }()
+	vrt.Quiesce()
+	vrt.Assert(hDone && hErr == nil, "packets arriving after termination are ignored (no error for the manager)")
+	vrt.Assert(!s.sigs.cancel.IsSet() || term == 2, "a late packet does not change the stream's signals")
+	vrt.Assert(!s.IsFinished(), "still not finished while the write is in flight")
+	if fails {
+		tr.failAt = 1
+	}
+	gate = true
+	vrt.Quiesce()
+	vrt.Assert(wDone, "the terminating call returns")
+	if fails {
+		vrt.Assert(classify(wErr) == cTransport, "a failed final write reports the transport's error, unaffected by late packets")
+	} else {
+		vrt.Assert(wErr == nil, "the terminating call succeeds")
+	}
+	vrt.Assert(s.IsFinished(), "finished once the write returned")
+	vrt.Cover("late-packets-end")
 }
